@@ -250,8 +250,8 @@ def check_variant(arg):
         projects = {}
         for pj, d in sh.projects.items():
             v = rr.yaml_project(pj)
-            if pj == sh.root_name:
-                imps = {key_of(o): (True, o, '..' + od['dir']) for o, od in sh.projects.items() if o != pj}
+            imps = {key_of(o): (True, o, rel) for o, rel in sh.import_map(pj).items()}
+            if imps:
                 v = v.with_field('imports', RMap(imps))
             projects[d['dir']] = v
         T = sh.all_targets()
@@ -559,11 +559,21 @@ def entry_independence(arg):
             return res
         a = resolved('/r', projects, ['q::a'])
         b = resolved('/q', {'/q': projects['/q']}, ['a'])
+        # the same project directory designated by another spelling (what `-p ../q` from a sibling directory amounts to)
+        c = resolved('/r/../q', {'/q': projects['/q']}, ['a'])
         ob = {'name': 'imported_target_resolves_identically_from_every_entry_project', 'verdict': 'unsat', 'checked_paths': len(a) + len(b)}
-        if len(a) != 1 or len(b) != 1 or a[0][0] != 'targets' or b[0][0] != 'targets':
+        if len(a) != 1 or len(b) != 1 or len(c) != 1 or a[0][0] != 'targets' or b[0][0] != 'targets' or c[0][0] != 'targets':
             ob['verdict'] = 'sat'
-            ob['detail'] = 'entered in the importing project: %s; entered in its own project: %s' % (str(a)[:300], str(b)[:300])
+            ob['detail'] = 'entered in the importing project: %s; entered in its own project: %s; entered through another spelling of its directory: %s' % (str(a)[:300], str(b)[:300], str(c)[:300])
         else:
+            for u in (('q', 'a'), ('q', 'b')):
+                vb, vc = b[0][1].get(u), c[0][1].get(u)
+                if vb != vc:
+                    ob['verdict'] = 'sat'
+                    ob['spelling'] = True
+                    ob['detail'] = '%s::%s resolves to different values when its project directory is given as /q and as /r/../q: %s / %s' % (u[0], u[1], (vb or '')[:300], (vc or '')[:300])
+                    break
+        if ob['verdict'] == 'unsat':
             for u in (('q', 'a'), ('q', 'b')):
                 va, vb = a[0][1].get(u), b[0][1].get(u)
                 if va != vb:
@@ -596,7 +606,82 @@ def native_entry_independence(repo):
         write_projects(root, sh, present)
         r1 = run_native(binpath, root + '/r', ['q::a'], None, timeout=60)
         r2 = run_native(binpath, root + '/q', ['a'], None, timeout=60)
+        # ... and once more with the project directory spelt differently on the command line
+        r3 = run_native(binpath, root + '/r/../q', ['a'], None, timeout=60)
         sp = lambda r: [l.split('script="echo ')[1].rstrip('"') for l in r['log'] if l.startswith('proc_spawn') and 'script="echo ' in l]
-        return {'run1_rc': r1['rc'], 'run1_spawned': sp(r1), 'run2_rc': r2['rc'], 'run2_spawned': sp(r2), 'run2_stderr': r2['stderr'][-300:]}
+        return {'run1_rc': r1['rc'], 'run1_spawned': sp(r1), 'run2_rc': r2['rc'], 'run2_spawned': sp(r2), 'run2_stderr': r2['stderr'][-300:],
+                'run3_rc': r3['rc'], 'run3_spawned': sp(r3), 'run3_stderr': r3['stderr'][-300:]}
+    finally:
+        shutil.rmtree(root, ignore_errors=True)
+
+
+# ---------------------------------------------------------------------------------------------------- C18: one record file per target
+STATE_NAMES = ['a', 'ab', 'a-b', 'a_b', 'a__b', 'A-b', 'a-b-c', 'a_b-c', 'b']
+
+
+def state_file_injectivity(arg):
+    """storage::get_checksums_file_path evaluated for every target name of a universe of valid names (named and unnamed project):
+    two different targets of one project never share a record file."""
+    import time
+    from ..actors import init_types, tid
+    from ..interp import Frame, Interp
+    from ..prog import Program
+    tier, repo = arg
+    t0 = time.time()
+    out = {'obligations': [], 'error': None, 'paths': 0, 'functions': []}
+    try:
+        prog = Program(repo)
+        init_types(prog)
+        fd = prog.find_fn('storage::get_checksums_file_path')
+        world = VfsWorld([], always_dirs=('/', '/p'))
+        I = Interp(prog, world)
+        ob = {'name': 'distinct_targets_have_distinct_record_files', 'verdict': 'unsat', 'checked_paths': 0}
+        for pj in (None, 'p', 'p-q'):
+            seen = {}
+            for n in STATE_NAMES:
+                I.reset_path()
+                I.frames.append(Frame(None, ('engine', 'incremental', 'storage'), None))
+                idv = RStruct('TargetId', {'project_name': NONE if pj is None else some(pj), 'target_name': n})
+                meta = RStruct('TargetMetadata', {'id': idv, 'project_dir': '/p', 'dependencies': RVec()})
+                path = I.deref(I.call_fn(fd, [meta]))
+                ob['checked_paths'] += 1
+                if not isinstance(path, str):
+                    raise Unsupported('record path is not concrete: %r' % (path,))
+                if path in seen and ob['verdict'] != 'sat':
+                    ob['verdict'] = 'sat'
+                    ob['detail'] = 'targets %r and %r of project %r share the record file %s' % (seen[path], n, pj, path)
+                    ob['pair'] = [seen[path], n]
+                    ob['project'] = pj
+                seen.setdefault(path, n)
+        out['functions'] = sorted(I.stats['fns'])
+        out['obligations'].append(ob)
+    except Unsupported as e:
+        out['error'] = 'unsupported: %s' % e
+    except Exception as e:   # pragma: no cover
+        import traceback
+        out['error'] = 'exception: %s\n%s' % (e, traceback.format_exc()[-1500:])
+    out['wall_s'] = round(time.time() - t0, 1)
+    return out
+
+
+def native_state_file_pair(pair, repo):
+    """Two targets of one project, each with its own input: build the first, build the second, ask for the first again: it must be skipped."""
+    import os
+    import shutil
+    import tempfile
+    from ..native import build_native, run_native
+    binpath, info = build_native(repo)
+    root = tempfile.mkdtemp(prefix='zx-state-', dir=os.environ.get('VERIF_SCRATCH', '/var/tmp'))
+    try:
+        lines = ['targets:']
+        for i, n in enumerate(pair):
+            open('%s/in%d.txt' % (root, i), 'w').write('v')
+            lines += ['  %s:' % n, '    build: echo x%d' % i, '    input:', '      - paths: [in%d.txt]' % i]
+        open(root + '/zinoma.yml', 'w').write('\n'.join(lines) + '\n')
+        runs = []
+        for n in (pair[0], pair[1], pair[0]):
+            r = run_native(binpath, root, [n], None, timeout=60)
+            runs.append({'target': n, 'rc': r['rc'], 'spawned': [l for l in r['log'] if l.startswith('proc_spawn')][:2], 'stderr': r['stderr'][-200:]})
+        return runs
     finally:
         shutil.rmtree(root, ignore_errors=True)
